@@ -140,6 +140,10 @@ Fixed == {
   \* `modify` (typed and untyped) of a captured variable with a value of another type
   [name |-> "modify_typed_mismatch", bad |-> <<"tot = 10", "clo = fn() { modify tot: str = \"ten\" }" \o M, "clo()">>,
                                      good |-> <<"tot = 10", "clo = fn() { modify tot: int = 11 }", "clo()">>],
+  \* `modify` writes a variable that the enclosing function captured: outside of any function, or on a variable of the
+  \* function itself, there is nothing to modify - also when the statement sits in a block
+  [name |-> "modify_own_in_block", bad |-> <<"tot = 10", "if tot == 10 {", "	modify tot = 11" \o M, "}">>, good |-> <<"tot = 10", "if tot == 10 {", "	tot = 11", "}">>],
+  [name |-> "modify_own_in_loop", bad |-> <<"tot = 10", "while tot == 10 {", "	modify tot = 11" \o M, "}">>, good |-> <<"tot = 10", "while tot == 10 {", "	tot = 11", "}">>],
   [name |-> "modify_mismatch", bad |-> <<"tot = 10", "clo = fn() { modify tot = \"ten\" }" \o M, "clo()">>,
                                good |-> <<"tot = 10", "clo = fn() { modify tot = 11 }", "clo()">>] }
 OpCases == {[kind |-> "op", op |-> o, l |-> l, r |-> r, ctx |-> c] :
